@@ -21,6 +21,9 @@ func scenFrames(out *scenOut, r *rng, thorough bool) {
 	for _, fps := range []int{5, 20, 60, 0, 500} {
 		framesOnce(out, fps)
 	}
+	for _, fps := range []int{5, 20} {
+		framesWithModeTraffic(out, fps)
+	}
 }
 
 func framesOnce(out *scenOut, fps int) {
@@ -76,5 +79,55 @@ func framesOnce(out *scenOut, fps int) {
 	}
 	if w2 != w1 {
 		out.fail(finding{Property: "C19", Class: "new", What: "an unchanged view wrote output", Input: desc, Expected: "0 writes while the view is constant", Observed: fmt.Sprint(w2 - w1)})
+	}
+}
+
+// paintCounter counts the writes that carry view content (the marker), as opposed to the short
+// control sequences the mode commands write on their own.
+type paintCounter struct {
+	safeBuffer
+	marker string
+	paints int64
+}
+
+func (s *paintCounter) Write(p []byte) (int, error) {
+	if strings.Contains(string(p), s.marker) {
+		atomic.AddInt64(&s.paints, 1)
+	}
+	return s.safeBuffer.Write(p)
+}
+
+// framesWithModeTraffic: the view changes every millisecond WHILE the program switches between the
+// main and the alt screen and issues other mode commands every few milliseconds (no prints): the view
+// is still painted by the ticker only - at most one painting write per frame interval
+// (C19_renders_only_at_ticks: a history without prints paints at flushes and at stop only).
+func framesWithModeTraffic(out *scenOut, fps int) {
+	ctl := newRecCtl()
+	buf := &paintCounter{marker: "tick "}
+	ctl.viewOf = func(version, ups int) string { return fmt.Sprintf("tick %d\nsecond line\n", ups) }
+	run := startProgram(ctl, &buf.safeBuffer, tea.WithOutput(buf), tea.WithInput(nil), tea.WithoutSignalHandler(), tea.WithFPS(fps))
+	desc := fmt.Sprintf("WithFPS(%d): the view changes every millisecond for 1 s while EnterAltScreen / ExitAltScreen / HideCursor / ShowCursor / EnableMouseCellMotion / DisableMouse / ClearScreen arrive every 3 ms (no prints)", fps)
+	run.p.Send(tea.WindowSizeMsg{Width: 40, Height: 10})
+	waitFor(2*time.Second, func() bool { return ctl.log.has("view-exit", "") })
+	time.Sleep(30 * time.Millisecond)
+	p0 := atomic.LoadInt64(&buf.paints)
+	cmds := []func() tea.Msg{tea.EnterAltScreen, tea.HideCursor, tea.EnableMouseCellMotion, tea.ExitAltScreen, tea.ShowCursor, tea.DisableMouse, tea.ClearScreen}
+	t0 := time.Now()
+	for i := 0; time.Since(t0) < time.Second; i++ {
+		run.p.Send(userMsg{0, 0})
+		if i%3 == 0 {
+			run.p.Send(cmds[(i/3)%len(cmds)]())
+		}
+		time.Sleep(time.Millisecond)
+	}
+	elapsed := time.Since(t0)
+	n := atomic.LoadInt64(&buf.paints) - p0
+	run.p.Quit()
+	run.wait(4 * time.Second)
+	out.record(fmt.Sprintf("frames-mode-traffic/%d", fps), desc)
+	limit := int(elapsed.Seconds()*float64(fps)) + 4 + int(float64(fps)*0.07)
+	if int(n) > limit {
+		out.fail(finding{Property: "C19", Class: "new", What: "more than one render per frame interval (the view was painted outside the frame ticker while mode commands were handled)", Input: desc,
+			Expected: fmt.Sprintf("at most %d painting writes in %v at %d fps", limit, elapsed.Round(time.Millisecond), fps), Observed: fmt.Sprint(n)})
 	}
 }
